@@ -48,6 +48,8 @@ type GenesisSpec struct {
 	Nodes   []nodetypes.Node
 	Pledges []nodetypes.Pledge
 	MaxValidators uint32
+	// cumulative block reward already minted (selects the halving age the chain starts in)
+	PoolTotalReward sdk.Int
 	// Mutate allows arbitrary edits of module genesis (raw JSON per module).
 	Mutate func(gs app.GenesisState)
 }
@@ -163,6 +165,10 @@ func BuildGenesis(spec GenesisSpec) []byte {
 	ng.Params = spec.NodeParams
 	ng.Pool.TotalPledged = sdk.NewInt64Coin(Denom, 0)
 	ng.Pool.TotalReward = sdk.NewInt64Coin(Denom, 0)
+	if !spec.PoolTotalReward.IsNil() && spec.PoolTotalReward.IsPositive() {
+		// a chain that has been minting for a long time (as an exported genesis would show it)
+		ng.Pool.TotalReward = sdk.NewCoin(Denom, spec.PoolTotalReward)
+	}
 	ng.Pool.AccRewardPerByte = sdk.NewInt64DecCoin(Denom, 0)
 	ng.Pool.AccPledgePerByte = sdk.NewInt64DecCoin(Denom, 0)
 	ng.Pool.RewardPerBlock = sdk.NewInt64DecCoin(Denom, 0)
